@@ -12,6 +12,7 @@
 -/
 import DateutilVerif.Base.Wire
 import DateutilVerif.Model.Cache
+import DateutilVerif.Model.RRuleSet
 import DateutilVerif.Ops.QueryOps
 
 namespace Ops.CacheOps
@@ -173,8 +174,9 @@ def handle (op : String) (args : List String) : Option String :=
   | "query.runx", [src, k, c, qs] => do
       -- the underlying generator raises ZeroDivisionError after k values
       let src ← parseIntList? src; let k ← k.toNat?; let qs ← parseQueries? qs
-      let out := if c != "0" then runRaising src k .ZeroDivisionError (initRaising src k .ZeroDivisionError) qs
-                 else qs.map (fun q => genRaising q src k .ZeroDivisionError)
+      let src := src.take k
+      let out := if c != "0" then (RSet.runQueries (init src [] (some .ZeroDivisionError)) qs).map (fun r => r.getD (.err .AssertionError))
+                 else qs.map (fun q => genRaising q src .ZeroDivisionError)
       some ("ok " ++ (if out.isEmpty then "-" else ";".intercalate (out.map (fun r => (showRes r).replace " " "_"))))
   | _, _ => none
 
